@@ -31,7 +31,7 @@ func init() {
 		Workers:     4,
 		Race:        true,
 		CaseTimeout: 200e9,
-		Rule: "real parallel executions under the Go race detector: 2-8 goroutines issue operations and transactions - a quarter of which are aborted by their own body after doing all their calls - (values tagged goroutine x counter; documents: also through child handles kept from inside a transaction body; lists: also range deletes at the tail of the list as it is at the moment of the call, which another goroutine may shorten before the call holds the datatype - refused is fine, a panic is not) on ONE datatype of each type while a background goroutine syncs it with the real service and, in half of the rounds, a second client's operations arrive; yields / sleeps are injected at the BeginTransaction / unlock hook points with seeded probabilities; a pack observer builds push packs in a tight loop meanwhile. Monitors: every pack the observer or a sync builds holds whole transaction units only; conservation (counter = sum of the deltas of calls that returned success, plus the remote deltas; for the other types the final state equals the replay of the stored log, which holds exactly one operation per successful call); exactly-once and identifier order (the client's stored operations carry seq 1..n without gap or repeat and strictly increasing clocks); transaction contiguity (each TRANSACTION header is followed by exactly NumOfOps-1 operations, all carrying tags of the issuing goroutine); isolation inside a transaction body (a counter read-modify-read sequence sees only its own writes; the second client's recognisable units - {+D,-D} pairs on a counter, six keys written to one value on a map / document - are never seen half-applied by reads inside a local transaction); linearizability of return values in rounds without a second client (porcupine: counter IncreaseBy -> new value; map Put/Remove -> previous value, per key); a transaction that fails after staying open while a pending call of the same application was pushed and acknowledged leaves nothing behind (rounds without a second client); no deadlock / panic (watchdog, worker crash); race-detector reports attributed to orda code, keyed by the unordered pair of innermost orda functions; " +
+		Rule: "real parallel executions under the Go race detector: 2-8 goroutines issue operations and transactions - a quarter of which are aborted by their own body after doing all their calls - (values tagged goroutine x counter; documents: also through child handles kept from inside a transaction body (single calls and two-step patches); lists: also range deletes at the tail of the list as it is at the moment of the call, which another goroutine may shorten before the call holds the datatype - refused is fine, a panic is not) on ONE datatype of each type while a background goroutine syncs it with the real service and, in half of the rounds, a second client's operations arrive; yields / sleeps are injected at the BeginTransaction / unlock hook points with seeded probabilities; a pack observer builds push packs in a tight loop meanwhile. Monitors: every pack the observer or a sync builds holds whole transaction units only; conservation (counter = sum of the deltas of calls that returned success, plus the remote deltas; for the other types the final state equals the replay of the stored log, which holds exactly one operation per successful call); exactly-once and identifier order (the client's stored operations carry seq 1..n without gap or repeat and strictly increasing clocks); transaction contiguity (each TRANSACTION header is followed by exactly NumOfOps-1 operations, all carrying tags of the issuing goroutine); isolation inside a transaction body (a counter read-modify-read sequence sees only its own writes; the second client's recognisable units - {+D,-D} pairs on a counter, six keys written to one value on a map / document - are never seen half-applied by reads inside a local transaction); linearizability of return values in rounds without a second client (porcupine: counter IncreaseBy -> new value; map Put/Remove -> previous value, per key); a transaction that fails after staying open while a pending call of the same application was pushed and acknowledged leaves nothing behind (rounds without a second client); no deadlock / panic (watchdog, worker crash); race-detector reports attributed to orda code, keyed by the unordered pair of innermost orda functions; " +
 			"non-trivial = >= 3 goroutines completed >= 5 calls each while >= 1 background sync applied a response; distinct = hash of the emitted (goroutine-tag) sequence, i.e. the interleaving actually observed",
 		Assumptions: []string{
 			"the application goroutines use the public mutators and transactions; getters are called only inside transaction bodies or after the goroutines have joined",
